@@ -507,8 +507,12 @@ impl LanguageServer for Backend {
             }
 
             doc_lock.retain(|url, _| {
-                // `change.uri` could be a directory so use `starts_with` instead of `==`.
-                let to_remove = url.as_str().starts_with(change.uri.as_str());
+                // `change.uri` could be a directory, so documents below it go as well. A bare string
+                // prefix is not enough: deleting `/p/d1.txt` must not close `/p/d1.txt.bak`.
+                let deleted = change.uri.as_str();
+                let to_remove = url.as_str().strip_prefix(deleted).is_some_and(|rest| {
+                    rest.is_empty() || deleted.ends_with('/') || rest.starts_with('/')
+                });
 
                 if to_remove {
                     urls_to_clear.push(url.clone());
